@@ -271,7 +271,7 @@ fn systematic() -> Vec<Case> {
 fn run(tier: Tier, seed: u64, workers: usize) -> COut {
     let n_rand = match tier {
         Tier::Quick => 4_000_000,
-        Tier::Thorough => 6_000_000,
+        Tier::Thorough => 60_000_000,
     };
     let sys = systematic();
     let nsys = sys.len();
